@@ -69,7 +69,9 @@ class Line:
 
     @fields.setter
     def fields(self, vals: List[Field]):
+        self._fields = vals
         self._repository.fields = vals
+        self._size = sum([f.size for f in vals])
 
     @property
     def values(self) -> List[Any]:
@@ -77,6 +79,7 @@ class Line:
 
     @values.setter
     def values(self, vals: List[Any]):
+        self._values = vals
         self._repository.values = vals
 
     @property
